@@ -22,7 +22,7 @@ def make(npos, ndef, varargs, varkw, raises = False, none_result = False):
     if varargs: params.append('*args')
     if varkw: params.append('**kw')
     body = 'CALLS.append(1)\n'
-    if raises: body += '    if %s: raise ValueError("boom")\n' % ('a > 5' if npos else 'False')
+    if raises: body += '    if %s: raise ValueError("boom")\n' % ('a is None or a > 5' if npos else 'False')
     ret = '(%s%s%s)' % (''.join(n + ', ' for n in names), 'args, ' if varargs else '', 'tuple(sorted(kw.items())), ' if varkw else '')
     if none_result: body += '    if %s: return None\n' % ('a == 0' if npos else 'True')
     src = 'def f(%s):\n    %s    return %s\n' % (', '.join(params), body, ret if ret != '()' else '()')
@@ -117,6 +117,9 @@ def h_try(sig, which):
         f, calls, names = make(*sig, raises = True)
         w = D[which](f)
         args, kwargs = a_call(c, *sig)
+        if sig[0] and (args or 'a' in kwargs) and c.choice('first-is-None', 2):          # an explicit None for the first parameter is a value, not "left to its default"
+            if args: args[0] = None
+            else: kwargs['a'] = None
         try: want = ('ok', f(*args, **dict(kwargs)))
         except ValueError: want = ('raised', None)
         got = w(*args, **dict(kwargs))
@@ -151,6 +154,7 @@ def h_cache(sig, ncalls, none_result):
             args = [c.pick('c%d.%s' % (i, names[j]), [0, 1]) for j in range(p)]
             kwargs = {names[j]: c.pick('c%d.%s' % (i, names[j]), [0, 1]) for j in range(p, npos) if j < npos - ndef or c.choice('c%d.give.%s' % (i, names[j]), 2)}
             if vk and c.choice('c%d.kw' % i, 2): kwargs['k1'] = c.pick('c%d.k1' % i, [0, 1])
+            if len(kwargs) >= 2 and c.choice('c%d.reversed' % i, 2): kwargs = dict(reversed(list(kwargs.items())))      # the same keywords written in another order are the same combination
             key = (tuple(args), tuple(sorted(kwargs.items())))
             before = len(calls)
             got = w(*args, **dict(kwargs))
